@@ -62,6 +62,47 @@ theorem C12_pow10_log10 (d : ℝ) (hd : 0 < d) : pow10 (Transc.log10 d) = d := b
   rw [h10, Real.rpow_def_of_pos (by norm_num : (0:ℝ) < 10), mul_div_cancel₀ _ (by
     have := Real.log_pos (by norm_num : (1:ℝ) < 10); linarith), Real.exp_log hd]
 
+/-- `log10 (10 ** x) = x` -/
+theorem C12_log10_pow10 (x : ℝ) : Transc.log10 (pow10 x) = x := by
+  unfold pow10
+  simp only [Transc.rpow, Transc.log10]
+  have h10 : (10.0 : ℝ) = 10 := by norm_num
+  have hl : Real.log 10 ≠ 0 := by have := Real.log_pos (by norm_num : (1:ℝ) < 10); linarith
+  rw [h10, Real.log_rpow (by norm_num : (0:ℝ) < 10)]
+  field_simp
+
+/-- REPRODUCTION BY INTERPOLATION (partial: one segment, not yet lifted to the lookup over the whole output). Take any two nodes the discretiser puts on
+a segment of the input — fractions f1 ≠ f2 with diameters `10 ** logInterp(f)` as the code computes them. Log-linear interpolation between those two
+nodes (what the diameter lookup does between neighbouring nodes: `C12_getDx_is_lookup` + C18) returns, at ANY fraction f, the value of the segment's own
+log-line; in particular at the segment's lower given fraction it returns exactly log10 of the given diameter, although that point is not a node. -/
+theorem C12_reproduction_between_nodes_partial (f1 f2 f : ℝ) (hseg : flow ≠ fnext) (h12 : f1 ≠ f2) :
+    logInterp f1 (pow10 (logInterp flow dlow fnext dnext f1)) f2 (pow10 (logInterp flow dlow fnext dnext f2)) f
+      = logInterp flow dlow fnext dnext f ∧
+    logInterp f1 (pow10 (logInterp flow dlow fnext dnext f1)) f2 (pow10 (logInterp flow dlow fnext dnext f2)) flow
+      = Real.log dlow / Real.log 10 := by
+  have key : ∀ g, logInterp f1 (pow10 (logInterp flow dlow fnext dnext f1)) f2 (pow10 (logInterp flow dlow fnext dnext f2)) g
+      = logInterp flow dlow fnext dnext g := by
+    intro g
+    conv_lhs => unfold logInterp
+    rw [C12_log10_pow10, C12_log10_pow10]
+    unfold logInterp
+    have h1 : fnext - flow ≠ 0 := sub_ne_zero.2 (Ne.symm hseg)
+    have h2 : f2 - f1 ≠ 0 := sub_ne_zero.2 (Ne.symm h12)
+    field_simp
+    ring
+  exact ⟨key f, by rw [key flow]; exact (C12_interp_endpoints flow dlow fnext dnext hseg).2⟩
+
+/-- the start node (X, limit) of the discretised grading lies on the log-line of the first remaining segment: X is the fraction at which that line
+reaches the limiting diameter -/
+theorem C12_start_node_on_line (dlim : ℝ) (hseg : flow ≠ fnext) (hd : Transc.log10 dnext ≠ Transc.log10 dlow) :
+    logInterp flow dlow fnext dnext (fnext - (Transc.log10 dnext - Transc.log10 dlim) * (fnext - flow) / (Transc.log10 dnext - Transc.log10 dlow))
+      = Transc.log10 dlim := by
+  unfold logInterp
+  have h1 : fnext - flow ≠ 0 := sub_ne_zero.2 (Ne.symm hseg)
+  have h2 : Transc.log10 dnext - Transc.log10 dlow ≠ 0 := sub_ne_zero.2 hd
+  field_simp
+  ring
+
 /-- the k-th subdivision fraction of a segment cut into (n+1) equal parts is strictly inside the segment -/
 theorem C12_subdivision_inside (n k : Nat) (hf : flow < fnext) (hk1 : 1 ≤ k) (hkn : k ≤ n) :
     flow < flow + k * ((fnext - flow) / ((n : ℝ) + 1)) ∧ flow + k * ((fnext - flow) / ((n : ℝ) + 1)) < fnext := by
